@@ -285,7 +285,7 @@ M("c10-unaccessible-in-nonstrict", ["C10"], "break",
 M("c10-loop-check-dropped", ["C10"], "break",
   [("yaep.c", "  for (i = 0; (symb = nonterm_get (i)) != NULL; i++)\n    if (symb->u.nonterm.loop_p)\n      yaep_error\n	(YAEP_LOOP_NONTERM,\n	 \"nonterm `%s' can derive only itself (grammar with loops)\",\n	 symb->repr);\n", "")], "table/YAEP_LOOP_NONTERM")
 M("c10-nonstrict-checks-every-nonterm", ["C10"], "break",
-  [("yaep.c", "  else if (!grammar->axiom->derivation_p)", "  else if (grammar->axiom->derivation_p)")], "YAEP_NONTERM_DERIVATION")
+  [("yaep.c", "      symb = rules_ptr->first_rule->rhs[0];\n      if (!symb->derivation_p)", "      symb = rules_ptr->first_rule->rhs[0];\n      if (symb->derivation_p)")], "YAEP_NONTERM_DERIVATION")
 M("c10-no-rules-check-dropped", ["C10"], "break",
   [("yaep.c", "  if (grammar->axiom == NULL)\n    yaep_error (YAEP_NO_RULES, \"grammar does not contains rules\");\n", "")], "table/YAEP_NO_RULES")
 M("c10-term-lhs-dropped", ["C10"], "break",
@@ -448,6 +448,28 @@ M("r16-revert-F32-conditional-total-loss-rule", ["C12", "C06"], "break",
   [("yaep.c", "  rule = rule_new_start (grammar->axiom, NULL, 0);\n  rule_new_symb_add (grammar->term_error);\n  rule_new_symb_add (grammar->end_marker);\n  rule_new_stop ();\n  rule->trans_len = 0;\n  check_grammar (strict_p);",
     "  for (rule = start->u.nonterm.rules; rule != NULL; rule = rule->lhs_next)\n    if (rule->rhs[0] == grammar->term_error)\n      break;\n  if (rule == NULL)\n    {\n  rule = rule_new_start (grammar->axiom, NULL, 0);\n  rule_new_symb_add (grammar->term_error);\n  rule_new_symb_add (grammar->end_marker);\n  rule_new_stop ();\n  rule->trans_len = 0;\n    }\n  check_grammar (strict_p);")],
   "yaep_read_grammar/total-loss-rule")
+M("c11-scanner-sets-lhs", ["C11"], "break",
+  [("sgramm.y", "	      if (c != ':')\n		curr_ch--;\n	      return (c == ':' ? SEM_IDENT : IDENT);", "	      if (c != ':')\n		curr_ch--;\n	      else\n		slhs = (char *) yylval.ref;\n	      return (c == ':' ? SEM_IDENT : IDENT);")],
+  "yylex/writes-own-state-only")
+M("c11-number-octal-digits", ["C11"], "break",
+  [("sgramm.y", "		yylval.num = yylval.num * 10 + (c - '0');", "		yylval.num = yylval.num * 8 + (c - '0');")], "yylex/numbers-base-10")
+M("r24-clear-stops-after-live-count", ["C19", "C16"], "break",
+  [("hashtab.c", "  for (entry_ptr = htab->entries;\n       entry_ptr < htab->entries + htab->size; entry_ptr++)\n    *entry_ptr = EMPTY_ENTRY;\n}",
+    "  {\n    size_t n = htab->size / 2;\n  for (entry_ptr = htab->entries;\n       n != 0 && entry_ptr < htab->entries + htab->size; entry_ptr++)\n    if (*entry_ptr != EMPTY_ENTRY)\n      {\n	*entry_ptr = EMPTY_ENTRY;\n	n--;\n      }\n  }\n}"),
+   ("hashtab.cpp", "  for (entry_ptr = entries; entry_ptr < entries + _size; entry_ptr++)\n    *entry_ptr = EMPTY_ENTRY;\n}",
+    "  {\n    size_t n = _size / 2;\n  for (entry_ptr = entries; n != 0 && entry_ptr < entries + _size; entry_ptr++)\n    if (*entry_ptr != EMPTY_ENTRY)\n      {\n	*entry_ptr = EMPTY_ENTRY;\n	n--;\n      }\n  }\n}")],
+  "whole-array")
+M("r24-clear-index-loop-benign", ["C19", "C16"], "benign",
+  [("hashtab.c", "  for (entry_ptr = htab->entries;\n       entry_ptr < htab->entries + htab->size; entry_ptr++)\n    *entry_ptr = EMPTY_ENTRY;\n}",
+    "  {\n    size_t i;\n    for (i = 0; i < htab->size; i++)\n      htab->entries[i] = EMPTY_ENTRY;\n  }\n}"),
+   ("hashtab.cpp", "  for (entry_ptr = entries; entry_ptr < entries + _size; entry_ptr++)\n    *entry_ptr = EMPTY_ENTRY;\n}",
+    "  {\n    size_t i;\n    for (i = 0; i < _size; i++)\n      entries[i] = EMPTY_ENTRY;\n  }\n}")])
+M("r24-addstr-room-without-terminator", ["C19", "C16"], "break",
+  [("vlobject.c", "  length = strlen (str) + 1;\n  if (vlo->vlo_free + length > vlo->vlo_boundary)\n    _VLO_expand_memory (vlo, length);\n  memcpy( vlo->vlo_free, str, length );\n  vlo->vlo_free = vlo->vlo_free + length;",
+    "  length = strlen (str);\n  if (vlo->vlo_free + length > vlo->vlo_boundary)\n    _VLO_expand_memory (vlo, length);\n  memcpy( vlo->vlo_free, str, length + 1 );\n  vlo->vlo_free = vlo->vlo_free + length + 1;"),
+   ("vlobject.cpp", "  length = strlen (str) + 1;\n  if (vlo_free + length > vlo_boundary)\n    _VLO_expand_memory (length);\n  memcpy( vlo_free, str, length );\n  vlo_free = vlo_free + length;",
+    "  length = strlen (str);\n  if (vlo_free + length > vlo_boundary)\n    _VLO_expand_memory (length);\n  memcpy( vlo_free, str, length + 1 );\n  vlo_free = vlo_free + length + 1;")],
+  "copy-to-free-end")
 
 # ---- R8 / R2f (C16, C19) ----------------------------------------------------------------------------
 M("r8-revert-F14", ["C19", "C16"], "break", [("hashtab.cpp", "		  entry_ptr = first_deleted_entry_ptr;\n		  *entry_ptr = EMPTY_ENTRY;", "		  entry_ptr = first_deleted_entry_ptr;\n		  *entry_ptr = DELETED_ENTRY;")], "find_hash_table_entry~")
